@@ -529,6 +529,47 @@ func extractC19(c *ctx) (Facts, error) {
 		}
 	}
 
+	// ---- no per-handler state: between the middleware function and the handler literal there is nothing but `return func…`
+	// (a variable declared there would be shared by all concurrent calls of the wrapped handler)
+	var stateful []string
+	for _, w := range []struct{ file, recv, fn string }{
+		{"timeout.go", "", "Timeout"}, {"correlation.go", "", "CorrelationID"}, {"recoverer.go", "", "Recoverer"},
+		{"ignore_errors.go", "IgnoreErrors", "Middleware"}, {"instant_ack.go", "", "InstantAck"}, {"throttle.go", "Throttle", "Middleware"},
+		{"circuit_breaker.go", "CircuitBreaker", "Middleware"}, {"delay_on_error.go", "DelayOnError", "Middleware"}, {"retry.go", "Retry", "Middleware"},
+	} {
+		fd, err := c.fn(mwDir+w.file, w.recv, w.fn)
+		if err != nil {
+			note(err)
+			stateful = append(stateful, w.fn+"@"+w.file+": not found")
+			continue
+		}
+		body := fd.Body
+		for depth := 0; depth < 4; depth++ {
+			if len(body.List) != 1 {
+				stateful = append(stateful, w.fn+"@"+w.file)
+				break
+			}
+			rs, ok := body.List[0].(*ast.ReturnStmt)
+			if !ok || len(rs.Results) != 1 {
+				stateful = append(stateful, w.fn+"@"+w.file)
+				break
+			}
+			fl, ok := rs.Results[0].(*ast.FuncLit)
+			if !ok {
+				stateful = append(stateful, w.fn+"@"+w.file)
+				break
+			}
+			if fl.Type.Params != nil && len(fl.Type.Params.List) == 1 && fl.Type.Results != nil && len(fl.Type.Results.List) == 2 {
+				break // reached the handler literal
+			}
+			body = fl.Body
+		}
+	}
+	if stateful == nil {
+		stateful = []string{}
+	}
+	facts["middlewares_with_state_outside_the_handler_literal"] = stateful
+
 	// ---- delay metadata keys and writer
 	facts["delayed_for_key"] = c.c19ConstValue("components/delay/delay.go", "DelayedForKey")
 	facts["delayed_until_key"] = c.c19ConstValue("components/delay/delay.go", "DelayedUntilKey")
